@@ -63,18 +63,21 @@ DefMember(ms, j) ==
 (* ---- argument domains --------------------------------------------------- *)
 \* scalar-like field of type t: tokens the API must accept / must refuse
 IntGood(t) == {"0", "1", "max"} \cup (IF Base(env, t).s = 1 THEN {"min"} ELSE {})
-IntBad == {"min-1", "max+1", "str", "float", "none", "bytes"}
+\* "estr" = '', "elist" = [], "zerof" = 0.0: wrongly typed values that are falsy in Python
+IntBad == {"min-1", "max+1", "str", "float", "none", "bytes", "estr", "elist", "zerof"}
 EnumN(t) == Len(env[Base(env, t).i].vals)
 ToS(n) == ToString(n)
 EnumGood(t) == {"e" \o ToS(j) : j \in 1..EnumN(t)} \cup {"n" \o ToS(j) : j \in 1..EnumN(t)}
-EnumBad == {"e?", "n?", "float", "none", "bytes"}
+\* "zero" = the integer 0 where no enumerator has that value
+EnumBadOf(t) == {"e?", "n?", "float", "none", "bytes", "estr", "zerof"}
+                \cup (IF \E j \in 1..EnumN(t) : env[Base(env, t).i].vals[j] = 0 THEN {} ELSE {"zero"})
 FltGood == {"0.0", "1.5", "1"}
-FltBad == {"str", "none", "bytes"}
+FltBad == {"str", "none", "bytes", "estr", "elist"}
 
 Good(t) == CASE BaseKind(t) = "int" -> IntGood(t) [] BaseKind(t) = "flt" -> FltGood
              [] BaseKind(t) = "enum" -> EnumGood(t)
 Bad(t) == CASE BaseKind(t) = "int" -> IntBad [] BaseKind(t) = "flt" -> FltBad
-            [] BaseKind(t) = "enum" -> EnumBad
+            [] BaseKind(t) = "enum" -> EnumBadOf(t)
 \* the stored (canonical) token: enumerators are stored as their index
 Canon(t, tok) ==
     IF BaseKind(t) = "enum"
